@@ -80,7 +80,48 @@ Definition go_slice (s : value) (lo hi : option value) : eres value :=
   | _ => EStuck
   end.
 
+Definition is_vint (v : value) : bool := match v with VInt _ => true | _ => false end.
+Definition opt_list {A} (o : option A) : list A := match o with Some a => [a] | None => [] end.
+
+(* the argument values fit the declared parameters (in declaration order; the receiver, if any, has index -1):
+   an int parameter takes an int, any other parameter a non-int value, the variadic tail starts at index
+   [variadic] (as the call site computed it) and takes the rest *)
+(* argument number i precedes the variadic tail that starts at index [variadic] (0 = no tail) *)
+Definition in_head (variadic i : Z) : bool := (variadic =? 0) || (i <? variadic).
+
+Fixpoint args_conform (decl : list stackop) (vs : list value) (i variadic : Z) : bool :=
+  match decl, vs with
+  | [], [] => variadic =? 0
+  | [SPopVariadic], _ => (i =? variadic) && (0 <? variadic) && (len vs <=? 255)
+  | SPop :: d', v :: vs' => negb (is_vint v) && in_head variadic i && args_conform d' vs' (i + 1) variadic
+  | SPopInt :: d', VInt _ :: vs' => in_head variadic i && args_conform d' vs' (i + 1) variadic
+  | _, _ => false
+  end.
+
+Fixpoint results_conform (ps : list pushop) (vs : list value) : bool :=
+  match ps, vs with
+  | [], [] => true
+  | SPush :: ps', v :: vs' => negb (is_vint v) && results_conform ps' vs'
+  | SPushInt :: ps', VInt _ :: vs' => results_conform ps' vs'
+  | _, _ => false
+  end.
+
+(* a call of bound Go function number id: its declared signature [nat_sig id] and the oracle for its results *)
+Definition native_call (nat_sig : Z -> option natsig) (nat_fun : Z -> list value -> option (list value))
+    (id variadic : Z) (recv : option value) (vs : list value) : eres (list value) :=
+  match nat_sig id with
+  | None => EStuck
+  | Some sg =>
+      if negb (args_conform (rev (ns_pops sg)) (opt_list recv ++ vs) (match recv with Some _ => -1 | None => 0 end) variadic)
+      then EStuck
+      else match nat_fun id (opt_list recv ++ vs) with
+           | None => ENoOracle
+           | Some res => if results_conform (ns_pushes sg) res then EOk res else EStuck
+           end
+  end.
+
 Section Sem.
+Variable nat_sig : Z -> option natsig.
 Variable nat_fun : Z -> list value -> option (list value).
 (* calling user function number id with argument values; None result = no value (void) *)
 Variable callf : Z -> list value -> eres (option value).
@@ -95,8 +136,6 @@ Definition eval_list_with (ev : expr -> eres value) : list expr -> eres (list va
 Definition eval_opt_with (ev : expr -> eres value) (o : option expr) : eres (option value) :=
   match o with None => EOk None | Some e => let! v := ev e in EOk (Some v) end.
 
-Definition opt_list {A} (o : option A) : list A := match o with Some a => [a] | None => [] end.
-
 (* all results of a call expression (a native may return a tuple) *)
 Definition call_results_with (ev : expr -> eres value) (f : callee) (recv : option expr) (args : list expr) : eres (list value) :=
   match f with
@@ -105,10 +144,10 @@ Definition call_results_with (ev : expr -> eres value) (f : callee) (recv : opti
       | a :: _ => let! v := ev a in match ty_of a, v with TStr, VStr s => EOk [VInt (len s)] | _, _ => EStuck end
       | _ => EStuck
       end
-  | FNative id _ =>
+  | FNative id variadic =>
       let! r := eval_opt_with ev recv in
       let! vs := eval_list_with ev args in
-      match nat_fun id (opt_list r ++ vs) with Some res => EOk res | None => ENoOracle end
+      native_call nat_sig nat_fun id variadic r vs
   | FUser id res =>
       match recv with
       | Some _ => EStuck
@@ -129,7 +168,7 @@ Variable st : store.
 Fixpoint eval (e : expr) {struct e} : eres value :=
   match e with
   | EConst _ c => of_const c
-  | EIdent x t => if x =? name_nil then EOk VNil else match store_get st x with Some v => typed v t | None => EStuck end
+  | EIdent x t => match store_get st x with Some v => typed v t | None => EStuck end
   | EParen x => eval x
   | ENot x => let! v := eval x in match v with VBool b => EOk (VBool (negb b)) | _ => EStuck end
   | EUnaryBad | EBad => EStuck
@@ -146,14 +185,14 @@ Fixpoint eval (e : expr) {struct e} : eres value :=
       | OEql | ONeq =>
           let neg := match op with ONeq => true | _ => false end in
           if ident_name x =? name_nil then
-            let! b := eval y in match value_is_nil b with Some r => EOk (VBool (xorb neg r)) | None => EStuck end
+            let! b := eval y in match value_is_nil b with Some r => EOk (VBool (if neg then negb r else r)) | None => EStuck end
           else if ident_name y =? name_nil then
-            let! a := eval x in match value_is_nil a with Some r => EOk (VBool (xorb neg r)) | None => EStuck end
+            let! a := eval x in match value_is_nil a with Some r => EOk (VBool (if neg then negb r else r)) | None => EStuck end
           else
             let! a := eval x in let! b := eval y in
             match tx, a, b with
-            | TStr, VStr p, VStr q => EOk (VBool (xorb neg (bytes_eqb p q)))
-            | TInt, VInt p, VInt q => EOk (VBool (xorb neg (p =? q)))
+            | TStr, VStr p, VStr q => EOk (VBool (if neg then negb (bytes_eqb p q) else bytes_eqb p q))
+            | TInt, VInt p, VInt q => EOk (VBool (if neg then negb (p =? q) else (p =? q)))
             | _, _, _ => EStuck
             end
       | OGtr | OGeq | OLss | OLeq =>
@@ -180,7 +219,8 @@ Fixpoint eval (e : expr) {struct e} : eres value :=
       match rs with [v] => typed v t | _ => EStuck end
   | ESelector nid t x =>
       let! v := eval x in
-      match nat_fun nid [v] with Some [r] => typed r t | Some _ => EStuck | None => ENoOracle end
+      let! rs := native_call nat_sig nat_fun nid 0 (Some v) [] in
+      match rs with [r] => typed r t | _ => EStuck end
   end.
 
 Definition eval_list := eval_list_with eval.
@@ -212,6 +252,7 @@ Fixpoint assign_all (st : store) (xs : list (Z * ty)) (vs : list value) : option
   end.
 
 Section Exec.
+Variable nat_sig : Z -> option natsig.
 Variable nat_fun : Z -> list value -> option (list value).
 Variable callf : Z -> list value -> eres (option value).
 
@@ -231,13 +272,13 @@ Fixpoint exec (fuel : nat) (s : stmt) (st : store) {struct fuel} : eres out :=
   match fuel with
   | O => EFuel
   | S f =>
-    let ev := eval nat_fun callf in
+    let ev := eval nat_sig nat_fun callf in
     match s with
     | SReturn [] => EOk (OReturn None)
     | SReturn (e :: _) => let! v := ev st e in EOk (OReturn (Some v))
     | SAssign tok lhs nrhs rhs =>
         if negb (nrhs =? 1) then EStuck else
-        let! vs := eval_rhs nat_fun callf st (length lhs) rhs in
+        let! vs := eval_rhs nat_sig nat_fun callf st (length lhs) rhs in
         match tok, lhs, vs with
         | (ADefine | AAssign), _, _ =>
             match assign_all st lhs vs with Some st' => EOk (ONormal st') | None => EStuck end
@@ -293,7 +334,7 @@ Fixpoint exec (fuel : nat) (s : stmt) (st : store) {struct fuel} : eres out :=
     | SBreak => EOk (OBreak st)
     | SExpr e =>
         match e with
-        | ECall fcallee _ recv args => let! _ := call_results nat_fun callf st fcallee recv args in EOk (ONormal st)
+        | ECall fcallee _ recv args => let! _ := call_results nat_sig nat_fun callf st fcallee recv args in EOk (ONormal st)
         | _ => EStuck
         end
     | SBlock l => block_with (exec f) l st
@@ -312,6 +353,7 @@ Fixpoint bind_params (ps : list (Z * ty)) (args : list value) (st : store) : opt
   end.
 
 Section Prog.
+Variable nat_sig : Z -> option natsig.
 Variable nat_fun : Z -> list value -> option (list value).
 Variable p : program.
 
@@ -325,7 +367,7 @@ Fixpoint call_sem (fuel : nat) (id : Z) (args : list value) {struct fuel} : eres
           match bind_params (fd_params fd) args [] with
           | None => EStuck
           | Some st =>
-              let! o := block_with (exec nat_fun (call_sem f) f) (fd_body fd) st in
+              let! o := block_with (exec nat_sig nat_fun (call_sem f) f) (fd_body fd) st in
               match o with
               | OReturn v =>
                   match v, fd_results fd with
